@@ -257,6 +257,11 @@ def run_unit(args):
                 lst = out["devs"].setdefault(name, [])
                 if len(lst) < 3:
                     lst.append(dict(case=case, value=v, tol=tol, info=info))
+                else:
+                    # always keep the largest deviation of the bucket (known findings are bounded in magnitude)
+                    j = min(range(len(lst)), key=lambda i: (lst[i]["value"] != lst[i]["value"], lst[i]["value"]))
+                    if v != v or v > lst[j]["value"]:
+                        lst[j] = dict(case=case, value=v, tol=tol, info=info)
             if len(out["samples"]) < 2 or (rec.nontrivial and len(out["samples"]) < 3):
                 out["samples"].append(case)
 
@@ -342,13 +347,18 @@ def load_known(prop):
     return [e for e in data.get("findings", []) if e.get("property") == prop and e.get("status") == "known"]
 
 
-def match_known(known, bucket):
+def match_known(known, bucket, value=None):
+    """a listed finding covers a bucket only up to its recorded magnitude (`max_value`): a larger deviation in the same
+    bucket is a different violation and is reported."""
     import re
 
     for e in known:
         for k in e.get("keys", [e.get("key")]):
             # only '*' is a wildcard (bucket names contain brackets and quotes)
             if k and re.fullmatch(".*".join(re.escape(p) for p in k.split("*")), bucket):
+                lim = e.get("max_value")
+                if lim is not None and value is not None and not (value <= lim):
+                    continue
                 return e
     return None
 
@@ -428,7 +438,8 @@ def run_property(prop, tier, seed, jobs=None, only_family=None):
     known = load_known(prop)
     new_buckets, known_hits = {}, {}
     for b, e in sorted(buckets.items()):
-        k = match_known(known, b)
+        worst = max((c["value"] for c in e["cases"]), default=None, key=lambda v: (v != v, v))
+        k = match_known(known, b, worst)
         if k is not None:
             known_hits.setdefault(k["id"], (k, []))[1].append(b)
         else:
@@ -443,10 +454,10 @@ def run_property(prop, tier, seed, jobs=None, only_family=None):
             if not fn.endswith(".json") or fn.startswith("new-"):
                 continue
             rp = os.path.join(replay_dir, fn)
-            devs = replay_file(mod, rp)
+            devs = replay_file(mod, rp, with_values=True)
             replayed += 1
-            for b in devs:
-                k = match_known(known, b)
+            for b, val in devs:
+                k = match_known(known, b, val)
                 if k is not None:
                     known_hits.setdefault(k["id"], (k, []))[1].append(b)
                 elif b not in new_buckets:
@@ -530,7 +541,7 @@ def run_property(prop, tier, seed, jobs=None, only_family=None):
     return 1 if violations else 0
 
 
-def replay_file(mod, path):
+def replay_file(mod, path, with_values=False):
     """returns the list of deviating bucket names of a stored case."""
     with open(path) as fh:
         r = json.load(fh)
@@ -542,6 +553,8 @@ def replay_file(mod, path):
     cls = f"{fam.name}/{fam.axis_key(live)}"
     for name, v, tol, info in rec.devs:
         print(f"  replay {os.path.basename(path)}: {cls}/{name} value={v:.3g} tol={tol:.3g} {info if info else ''}")
+    if with_values:
+        return [(f"{cls}/{name}", v) for name, v, tol, info in rec.devs]
     return [f"{cls}/{name}" for name, v, tol, info in rec.devs]
 
 
@@ -550,10 +563,12 @@ def replay_main(prop, path):
     mod = _load(prop)
     import_felupe()
     known = load_known(prop)
-    devs = replay_file(mod, path)
-    bad = [b for b in devs if match_known(known, b) is None]
+    pairs = replay_file(mod, path, with_values=True)
+    devs = [b for b, v in pairs]
+    vals = dict(pairs)
+    bad = [b for b in devs if match_known(known, b, vals[b]) is None]
     for b in devs:
-        k = match_known(known, b)
+        k = match_known(known, b, vals[b])
         if k:
             print(f"KNOWN-FINDING: property={prop} {k['id']}: {k['what']}")
     for b in bad:
